@@ -579,7 +579,6 @@ theorem protoIndex_length (steps : Nat) : ∀ (proto : Protocol) (t0 : Rat) (fir
   | nil => intro t0 first; simp [protoIndex]
   | cons st rest ih =>
     intro t0 first
-    obtain ⟨tEnd, pars⟩ := st
     simp only [protoIndex, List.length_append, ih, List.length_cons]
     cases first with
     | true => simp [linspace_length, Nat.add_mul]; omega
@@ -742,5 +741,152 @@ theorem ssRun_shape (cfg : EulerCfg) (c c' : Content) (segs : List Seg)
   obtain ⟨p, last, _, hseg⟩ := h2 segs rfl
   subst hseg
   exact ⟨by simp, h1⟩
+
+/-! ### the time index of a successful protocol run -/
+
+
+def timesOf (segs : List Seg) : List Rat := (segs.flatMap (·.rows)).map (·.1)
+
+theorem linspace_succ_head (a b : Rat) (n : Nat) (hn : 0 < n) : (linspace a b (n + 1)).head? = some a := by
+  unfold linspace
+  have h1 : ¬ (n + 1 ≤ 1) := by omega
+  simp only [h1, if_false]
+  rw [List.range_succ_eq_map]
+  simp
+  grind
+
+theorem linspace_succ_last (a b : Rat) (n : Nat) (hn : 0 < n) (d : Rat) :
+    (linspace a b (n + 1)).getLastD d = b := by
+  unfold linspace
+  have h1 : ¬ (n + 1 ≤ 1) := by omega
+  simp only [h1, if_false]
+  rw [List.range_succ, List.map_append]
+  simp only [List.map_cons, List.map_nil, Nat.add_sub_cancel]
+  rw [List.getLastD_eq_getLast?, List.getLast?_append]
+  simp only [List.getLast?_singleton, Option.some_or, Option.getD_some]
+  have hn' : ((n : Nat) : Rat) ≠ 0 := by
+    intro h
+    have : (n : Rat) = ((0 : Nat) : Rat) := by simpa using h
+    have := Rat.natCast_inj.mp this
+    omega
+  grind
+
+
+
+
+theorem getLastD_fst {β} : ∀ (l : List (Rat × β)) (x : Rat × β) (d : Rat),
+    ((x :: l).getLastD x).1 = ((x :: l).map (·.1)).getLastD d := by
+  intro l
+  induction l with
+  | nil => intro x d; simp [List.getLastD]
+  | cons y ys ih =>
+    intro x d
+    have := ih y d
+    simp only [List.getLastD, List.map_cons] at this ⊢
+    exact this
+
+theorem integrateTC_t0 (c : Content) (ig ig' : Integ) (tps : List Rat) (rows : List (Rat × List Rat))
+    (h : integrateTC c ig tps = .ok (ig', some rows)) :
+    ig'.t0 = (rows.map (·.1)).getLastD ig.t0 := by
+  unfold integrateTC at h
+  by_cases hf : ig.fail
+  · simp [hf, pure, Except.pure] at h
+  · simp only [hf] at h
+    cases hg : tcGrid ig.t0 tps with
+    | nil => rw [hg] at h; simp at h
+    | cons t0 rest =>
+      rw [hg] at h
+      simp only [Bool.false_eq_true, if_false, bind, Except.bind] at h
+      cases hr : eulerCourse c t0 ig.y0 rest with
+      | error e => rw [hr] at h; cases h
+      | ok rs =>
+        rw [hr] at h
+        simp only [pure, Except.pure, Except.ok.injEq, Prod.mk.injEq, Option.some.injEq] at h
+        obtain ⟨h1, h2⟩ := h
+        subst h1 h2
+        exact getLastD_fst rs (t0, ig.y0) ig.t0
+
+
+
+
+theorem timesOf_append (a b : List Seg) : timesOf (a ++ b) = timesOf a ++ timesOf b := by
+  simp [timesOf]
+
+/-- the time index of a successful protocol run is `protoIndex` -/
+theorem simLoop_index (steps : Nat) (hs : 0 < steps) :
+    ∀ (proto : Protocol) (c : Content) (ig : Integ) (segs : List Seg) (c' : Content) (out : List Seg),
+      simLoop steps c ig segs proto = .ok (c', some out) →
+      timesOf out = timesOf segs ++ protoIndex steps ig.t0 segs.isEmpty proto := by
+  intro proto
+  induction proto with
+  | nil =>
+    intro c ig segs c' out h
+    simp only [simLoop] at h
+    by_cases he : segs.isEmpty = true
+    · simp [he] at h
+    · simp only [he, Bool.false_eq_true, if_false, Except.ok.injEq, Prod.mk.injEq, Option.some.injEq] at h
+      rw [← h.2]; simp [protoIndex]
+  | cons step rest ih =>
+    intro c ig segs c' out h
+    unfold simLoop at h
+    cases h1 : updatePars c step.2 with
+    | error e => rw [h1] at h; cases h
+    | ok c1 =>
+      rw [h1] at h
+      simp only at h
+      by_cases hle : step.1 ≤ lastTime segs
+      · simp [hle] at h
+      · simp only [hle, if_false] at h
+        cases h2 : integrateTC c1 ig (linspace ig.t0 step.1 (steps + 1)) with
+        | error e => rw [h2] at h; cases h
+        | ok r =>
+          obtain ⟨ig', res⟩ := r
+          rw [h2] at h
+          cases res with
+          | none =>
+            simp only at h
+            by_cases he : segs.isEmpty = true
+            · simp [he] at h
+            · simp only [he, Bool.false_eq_true, if_false] at h
+              cases h3 : applyRemaining c1 rest with
+              | error e => rw [h3] at h; cases h
+              | ok c2 => rw [h3] at h; simp at h
+          | some rows =>
+            simp only at h
+            cases h3 : snapshot c1 with
+            | error e => rw [h3] at h; cases h
+            | ok p =>
+              rw [h3] at h
+              simp only at h
+              have hgrid : rows.map (·.1) = linspace ig.t0 step.1 (steps + 1) := by
+                rw [integrateTC_index c1 ig ig' _ rows h2]
+                simp [tcGrid, linspace_succ_head ig.t0 step.1 steps hs]
+              have ht0 : ig'.t0 = step.1 := by
+                rw [integrateTC_t0 c1 ig ig' _ rows h2, hgrid, linspace_succ_last ig.t0 step.1 steps hs]
+              have hne : ∀ (sg : Seg), (segs ++ [sg]).isEmpty = false := by
+                intro sg; cases segs <;> rfl
+              have := ih c1 ig' _ c' out h
+              rw [this, timesOf_append, ht0, hne]
+              simp only [protoIndex, List.append_assoc]
+              congr 1
+              congr 1
+              by_cases he : segs.isEmpty = true
+              · simp [timesOf, he, hgrid]
+              · simp [timesOf, he, ← hgrid]
+
+theorem protoRun_index (cfg : EulerCfg) (proto : Protocol) (steps : Nat) (hs : 0 < steps) (c c' : Content)
+    (segs : List Seg) (h : protoRun cfg proto steps c = .ok (c', some segs)) :
+    timesOf segs = protoIndex steps 0 true proto := by
+  unfold protoRun at h
+  cases hi : simInit cfg c with
+  | error e => rw [hi] at h; cases h
+  | ok ig =>
+    rw [hi] at h
+    simp only at h
+    have := simLoop_index steps hs proto c ig [] c' segs h
+    rw [simInit_t0 cfg c ig hi] at this
+    simpa [timesOf] using this
+
+
 
 end Mxl.C09
